@@ -16,6 +16,8 @@ still reads back.
 import copy
 import hashlib
 
+import pandas as pd
+
 from sim import dataset as D
 from sim import frames as F
 from sim import minithrift as M
@@ -75,6 +77,16 @@ def dec(t):
     return t[1] if t[0] == 's' else bytes.fromhex(t[1])
 
 
+def spell(kb, rng, p=0.6):
+    """Name an existing key as text (when it is text) or as bytes."""
+    if rng.random() < p:
+        try:
+            return kb.decode('utf-8')
+        except UnicodeDecodeError:
+            pass
+    return kb
+
+
 def as_bytes(x):
     return x.encode('utf-8') if isinstance(x, str) else bytes(x)
 
@@ -105,9 +117,19 @@ def gen_value(rng, n=None):
     return bytes([0xFF, 0xFE] * (n // 2) + [0x80] * (n % 2))  # not UTF-8
 
 
+RAW_KEYS = [b'\xe2', b'\xe3', b'id\xff', b'id\xfe', b'\xff\xfe k', b'k\x80']
+
+
 def gen_key(rng, used):
     for _ in range(50):
         r = rng.random()
+        if r > 0.9:
+            # keys that are not UTF-8: distinct byte strings whose lossy text
+            # forms coincide
+            key = rng.choice(RAW_KEYS)
+            if key not in used:
+                return key
+            continue
         base = rng.choice(('k', 'key', 'clé', 'кл', 'a.b', 'K', ''))
         key = '%s%d' % (base, rng.randrange(0, 30))
         if r < 0.25:
@@ -143,13 +165,13 @@ def generate(seed, idx, tier):
                 delta = rng.choice((-64, -17, -9, -8, -7, -5, -3, -2, -1, -1,
                                     0, 1, 1, 2, 3, 5, 7, 8, 8, 9, 17, 64))
                 val = gen_value(rng, max(0, len(old) + delta))
-                key = kb.decode('utf-8') if rng.random() < 0.6 else kb
+                key = spell(kb, rng)
                 upd.append([enc(key), enc(val)])
                 model[kb] = as_bytes(val)
                 seen.add(kb)
             elif r < 0.55 and present:                   # remove present
                 kb = rng.choice(sorted(present))
-                key = kb.decode('utf-8') if rng.random() < 0.6 else kb
+                key = spell(kb, rng)
                 upd.append([enc(key), None])
                 del model[kb]
                 seen.add(kb)
@@ -160,7 +182,7 @@ def generate(seed, idx, tier):
             elif r < 0.72 and present:                   # replace, any size
                 kb = rng.choice(sorted(present))
                 val = gen_value(rng)
-                upd.append([enc(kb.decode('utf-8')), enc(val)])
+                upd.append([enc(spell(kb, rng, 1.0)), enc(val)])
                 model[kb] = as_bytes(val)
                 seen.add(kb)
             else:                                        # add
@@ -174,6 +196,8 @@ def generate(seed, idx, tier):
     return {'prop': PROP, 'seed': seed, 'idx': idx, 'tier': tier,
             'target': target, 'initial': list(initial.values()),
             'updates': updates, 'nrows': rng.randrange(1, 20),
+            'cat_append': target == 'data' and rng.random() < 0.3,
+            'local': rng.random() < 0.1,
             'fseed': rng.randrange(2 ** 31),
             'codec': rng.choice((None, 'SNAPPY', 'GZIP'))}
 
@@ -222,7 +246,16 @@ def execute(case):
             res['violations'].append({'class_key': key, 'message': msg,
                                       'case': c})
 
-    fs = D.new_fs('posix')
+    fs = D.new_fs('posix', local=case.get('local', False))
+    try:
+        return _execute(case, fs, res, cnt, probes, bump, violation, fw,
+                        update_file_custom_metadata)
+    finally:
+        D.cleanup(fs)
+
+
+def _execute(case, fs, res, cnt, probes, bump, violation, fw,
+             update_file_custom_metadata):
     spec = {'batch': 0, 'nrows': case['nrows'],
             'cols': [['uid', 'uid', 'none', 0, None],
                      ['f', 'f64', 'some', case['fseed'], None],
@@ -236,17 +269,33 @@ def execute(case):
     is_meta = target in ('_metadata', '_common_metadata')
     try:
         if target == 'data':
-            path = '/w/one.parq'
+            path = D.ds_path(fs, 'one.parq')
+            if case.get('cat_append'):
+                # a categorical column whose appended row group has more
+                # categories: the summary's pandas entry would change if
+                # anything re-consolidated it
+                df['c'] = pd.Categorical(['x', 'y'] * (len(df) // 2)
+                                         + ['x'] * (len(df) % 2),
+                                         categories=['x', 'y'])
             D.do_write(fs, path, df, {'codec': case['codec']}, 'simple', [],
                        extra={'custom_metadata': dict(initial)})
+            if case.get('cat_append'):
+                df2 = df.copy()
+                df2['uid'] = df2['uid'] + 10 ** 6
+                df2['c'] = pd.Categorical(['x'] * len(df),
+                                          categories=['x', 'y', 'q', 'w',
+                                                      'z'])
+                D.do_append(fs, path, df2, {'codec': case['codec']},
+                            'simple', [])
             readpath = path
         else:
-            D.do_write(fs, D.DS, df, {'codec': case['codec'],
+            dsp = D.ds_path(fs)
+            D.do_write(fs, dsp, df, {'codec': case['codec'],
                                       'rgo': max(1, case['nrows'] // 2)},
                        'hive', [], extra={'custom_metadata': dict(initial)})
-            readpath = D.DS
-            path = D.DS + '/' + ('part.0.parquet' if target == 'part'
-                                 else target)
+            readpath = dsp
+            path = dsp + '/' + ('part.0.parquet' if target == 'part'
+                                else target)
     except Exception as e:
         res.update(verdict='discard', digest='discard', evals=0,
                    discard='initial write refused: %s: %s'
@@ -274,7 +323,8 @@ def execute(case):
         violation('C16/write-time-metadata-not-verbatim', 'through '
                   'ParquetFile.key_value_metadata: ' + err, -1)
 
-    fw.open = fs.builtin_open
+    if not D.is_local(fs):
+        fw.open = fs.builtin_open
     try:
         for ui, upd in enumerate(case['updates']):
             before = bytes(fs.files[path])
@@ -347,6 +397,15 @@ def execute(case):
                 violation('C16/keys-differ-from-model', 'update %d %s: %s'
                           % (ui, _short(upd), err), ui)
                 break
+            rsv_b = {k: v for k, v in M.kv(rb['fmd']) if k in RESERVED}
+            rsv_a = {k: v for k, v in M.kv(ra['fmd']) if k in RESERVED}
+            if rsv_a != rsv_b:
+                violation('C16/unnamed-key-changed',
+                          'update %d: the %s entry, which the update did not '
+                          'name, changed' % (ui, sorted(
+                              k for k in rsv_b if rsv_a.get(k) != rsv_b[k])),
+                          ui)
+                break
             err = api_mismatch(fs, path, model)
             if err:
                 violation('C16/keys-differ-from-model',
@@ -365,8 +424,13 @@ def execute(case):
             h.update(('%d:%s;' % (ui, hashlib.blake2b(
                 after, digest_size=8).hexdigest())).encode())
     finally:
-        del fw.open
+        if not D.is_local(fs):
+            del fw.open
     bump(cnt, 'histories')
+    if D.is_local(fs):
+        bump(probes, 'histories_on_real_local_file')
+    if case.get('cat_append'):
+        bump(probes, 'categorical_column_with_appended_categories')
     if any(t != '0' for t in trail):
         res['keys'].append('|'.join((target, ' '.join(trail), ','.join(
             sorted('%s%s' % t for t in types)))))
@@ -406,7 +470,7 @@ def kv_mismatch(fmd, model):
 
 def api_mismatch(fs, path, model):
     try:
-        kvm = D.ParquetFile(path, fs=fs).key_value_metadata
+        kvm = D.open_pf(path, fs).key_value_metadata
     except Exception as e:
         return 'open fails: %s: %s' % (type(e).__name__, e)
     got = {}
